@@ -28,16 +28,22 @@ def assumptions():
 
 
 PIECES = {
-    "ws": lambda seed: [core.rep(seed, ["a", "q", "0", "é"]), core.rep(seed, ["bb", "x1", "b-b", "üü"]),
+    "ws": lambda seed: [core.rep(seed, ["a", "q", "0", "é"]), core.rep(seed, ["bb", "x1", "b-b", "üü"]), "#h",
                         " ", "  ", "\t", "\n ", "\n\t", "\n#c\n "],
-    "comma": lambda seed: [core.rep(seed, ["a", "q", "0", "é"]), core.rep(seed, ["b c", "x 1", "b  c", "ü ü"]),
+    "comma": lambda seed: [core.rep(seed, ["a", "q", "0", "é"]), core.rep(seed, ["b c", "x 1", "b  c", "ü ü"]), "#h",
                            ",", ", ", " ", "\n ", "\n#c\n "],
 }
 
 
+def _content_lines(v):
+    """the first line follows the colon and is never a comment; later lines are comments iff '#' is in column 0"""
+    lines = v.split("\n")
+    return lines[:1] + [l for l in lines[1:] if not l.startswith("#")]
+
+
 def valid_value(v):
     lines = v.split("\n")
-    if not "".join(l for l in lines if not l.startswith("#")).strip():
+    if not "".join(_content_lines(v)).strip():
         return False
     for l in lines[1:]:
         if l.startswith("#"):
@@ -50,7 +56,7 @@ def valid_value(v):
 
 
 def split_oracle(v, interp):
-    t = "\n".join(l for l in v.split("\n") if not l.startswith("#"))
+    t = "\n".join(_content_lines(v))
     if interp == "comma":
         return [x.strip() for x in t.split(",") if x.strip()]
     return t.split()
